@@ -467,16 +467,29 @@ def classify_known(ctx, ent0):
                 if unS(v[2]) or v[3] != "-" or unS(v[4]) or unS(v[5]) or (path, str(vi)) not in connected:
                     return True
         return any(local_content(k, path + "." + str(i)) for i, k in enumerate(c[9]))
-    if any(u[3] != "-" and len(u[5]) > 0 for u in ent0[4]) or any(local_content(c, str(i)) for i, c in enumerate(ent0[5])):
+    def ref_without_source(c):
+        return (c[4] == "-" and bool(unS(c[5]))) or any(ref_without_source(k) for k in c[9])
+    if any(u[3] != "-" and len(u[5]) > 0 for u in ent0[4]) or any(local_content(c, str(i)) for i, c in enumerate(ent0[5])) \
+            or any(u[3] == "-" and unS(u[4]) for u in ent0[4]) or any(ref_without_source(c) for c in ent0[5]):
         ids.append("C02-imported-entity-local-content")
+    # C02-non-mathml-math: a math string (component math, test / reset value) that is not made of MathML math elements
+    math_head = "(e %s %s " % (S(MATHML), S("math"))
+    for ms in ent_math_strings(ent0):
+        el = math_elems(ms)
+        if el is None or any(not x.startswith(math_head) for x in el):
+            ids.append("C02-non-mathml-math")
+            break
     # C02-number-overflows-at-15-digits: a finite exponent / multiplier whose 15-digit text is beyond DBL_MAX
     for u in ent0[4]:
         for d in u[5]:
             for tok in (d[3], d[4]):
                 try:
                     f = float(tok[1:])
+                    if math.isinf(f) or math.isnan(f):
+                        ids.append("C02-number-overflows-at-15-digits")
+                        continue
                     g = float("%.15g" % f)
-                    if not (math.isinf(f) or math.isnan(f)) and f != 0.0 and (math.isinf(g) or abs(g) < 2.2250738585072014e-308):
+                    if f != 0.0 and (math.isinf(g) or abs(g) < 2.2250738585072014e-308):
                         ids.append("C02-number-overflows-at-15-digits")
                 except (ValueError, OverflowError):
                     pass
@@ -718,6 +731,10 @@ def evaluate(ctx, case, cpp_line, ml_line, names, stats):
             if cls == "issues" and not pb_fixed and "C02-number-overflows-at-15-digits" in known \
                     and all(x in ("E:UNIT_ATTRIBUTE_MULTIPLIER_VALUE", "E:UNIT_ATTRIBUTE_EXPONENT_VALUE") for x in ci1):
                 matched = "C02-number-overflows-at-15-digits"
+            if not pb_fixed and "C02-non-mathml-math" in known and \
+                    (cls != "issues" or all(x in ("E:XML_UNEXPECTED_CHARACTER", "E:XML_UNEXPECTED_ELEMENT", "E:XML_UNEXPECTED_NAMESPACE",
+                                                  "E:TEST_VALUE_CHILD", "E:RESET_VALUE_CHILD", "E:XML_ATTRIBUTE_HAS_NAMESPACE") for x in ci1)):
+                matched = "C02-non-mathml-math"
             if matched and ctx.known_finding(matched, what):
                 problems.append(("known:" + matched, what, {}))
             else:
@@ -746,6 +763,34 @@ def evaluate(ctx, case, cpp_line, ml_line, names, stats):
     return problems
 
 
+class _CtxStub:
+    """stands in for vf.Ctx inside worker processes: remembers which known findings were matched"""
+    def __init__(self, known_ids):
+        self.known_ids = known_ids
+        self.seen = []
+
+    def known_finding(self, fid, text):
+        if fid in self.known_ids:
+            self.seen.append((fid, text))
+            return True
+        return False
+
+
+def _eval_chunk(args):
+    known_ids, names, items = args
+    out = []
+    for case, cl, mll in items:
+        stub = _CtxStub(known_ids)
+        st = new_stats()
+        try:
+            pr = evaluate(stub, case, cl, mll, names, st)
+        except Exception as e:
+            import traceback
+            pr = [("violation", "check glue crashed on this case: %r" % (e,), {"trace": traceback.format_exc()[-1500:]})]
+        out.append((pr, st, stub.seen))
+    return out
+
+
 def run_batch(ctx, cases, cpp, mdl, names, stats, tag):
     cpp_out = shards(ctx, cpp, tag + "_cpp", [c[1] for c in cases])
     ml_in = []
@@ -763,14 +808,30 @@ def run_batch(ctx, cases, cpp, mdl, names, stats, tag):
     ml_by_case = {}
     for j, i in enumerate(ml_index):
         ml_by_case[i] = ml_out[j]
+    items = [(c, cpp_out[i], ml_by_case.get(i)) for i, c in enumerate(cases)]
+    known_ids = set(ctx.known) if hasattr(ctx, "known") else set()
+    nproc = max(1, min(vf.NCPU, len(items) // 100))
+    if nproc > 1:
+        import multiprocessing
+        step = (len(items) + nproc * 4 - 1) // (nproc * 4)
+        chunks = [(known_ids, names, items[k:k + step]) for k in range(0, len(items), step)]
+        with multiprocessing.Pool(nproc) as pool:
+            parts = pool.map(_eval_chunk, chunks)
+        evaluated = [x for part in parts for x in part]
+    else:
+        evaluated = _eval_chunk((known_ids, names, items))
     results = []
-    for i, c in enumerate(cases):
-        try:
-            pr = evaluate(ctx, c, cpp_out[i], ml_by_case.get(i), names, stats)
-        except Exception as e:
-            import traceback
-            pr = [("violation", "check glue crashed on this case: %r" % (e,), {"trace": traceback.format_exc()[-1500:]})]
-        results.append((c, cpp_out[i], ml_by_case.get(i), pr))
+    for (c, cl, mll), (pr, st, seen) in zip(items, evaluated):
+        for k, v in st.items():
+            if isinstance(v, dict):
+                d = stats.setdefault(k, {})
+                for kk, vv in v.items():
+                    d[kk] = d.get(kk, 0) + vv
+            else:
+                stats[k] = stats.get(k, 0) + v
+        for fid, text in seen:
+            ctx.known_finding(fid, text)
+        results.append((c, cl, mll, pr))
     return results
 
 
